@@ -295,7 +295,7 @@ func cyclePrograms(r *rng.R, k int) []cycleCase {
 		add(oneFile(defs...), fmt.Sprintf("service cycle len %d", n), "")
 		// include loop of length n (n = 1: self include), with a reference across it
 		p := &Prog{Strict: true}
-		fn := []string{"a", "b", "c", "d", "e", "f"}
+		fn := []string{"a", "b", "c", "d", "e", "f", "g", "h", "i", "j"} // at least k names (k = 7 in the thorough tier)
 		for i := 0; i < n; i++ {
 			nx := fn[(i+1)%n]
 			p.Files = append(p.Files, &File{Path: fn[i] + ".thrift", Includes: []Include{{Path: "./" + nx + ".thrift"}},
